@@ -319,6 +319,8 @@ def case_s(draw, path, kind, probe=True):
                 kept.append(a)
             if part in spec:
                 spec[part] = kept
+    if path == "pie":
+        spec["mshape"] = draw(st.sampled_from([0, 0, 1, 2, 3]))     # see c05_exec._masks
     spec["pre"] = draw(st.sampled_from([0, 0, 1, 3]))
     if draw(st.integers(0, 2)) == 0:
         hist = draw(steps_s(v))
